@@ -80,6 +80,7 @@ def iterate(kind, data, quitonerror=1, bufsize=4096):
             closer()
 
 
+@core.guard
 def judge(case):
     out = core.Outcome()
     data = case["data"]
